@@ -298,32 +298,24 @@ def _import_from_base(node: ast.ImportFrom, mod: ModuleType) -> Optional[str]:
     return base or None
 
 
-class _BodyImportsResolver(ast.NodeTransformer):
+class _ScopeImportsVisitor(ast.NodeVisitor):
     """
-    A name bound by an import statement in the body of a function (from pkg import conf,
-    from pkg.conf import fun, import pkg.conf as conf) is not a name of the module of the function. It is
-    replaced by the full path of what it denotes (pkg.conf, pkg.conf.fun), which is looked up from the root
-    like the modules that are imported by their own name (import pkg.conf).
-
-    Only the imports from the accepted packages are resolved: the other ones do not take part in the analysis.
+    The names that the import statements of one scope (not of the scopes nested in it) bind, with the full paths
+    of the objects they are bound to.
     """
 
-    def __init__(self, mod: ModuleType, gctx: EvalMainContext):
+    def __init__(self, mod: ModuleType):
         self._mod = mod
-        self._gctx = gctx
-        self._aliases: Dict[str, List[str]] = {}
+        self.bindings: Dict[str, List[List[str]]] = {}
 
     def _register(self, name: str, parts: List[str]) -> None:
-        if self._gctx.is_authorized_path(CanonicalPathUtils.from_list(parts)):
-            self._aliases[name] = parts
-        else:
-            self._aliases.pop(name, None)
+        if parts not in self.bindings.setdefault(name, []):
+            self.bindings[name].append(parts)
 
     def visit_Import(self, node: ast.Import) -> Any:
         for alias in node.names:
             if alias.asname is not None:
                 self._register(alias.asname, alias.name.split("."))
-        return node
 
     def visit_ImportFrom(self, node: ast.ImportFrom) -> Any:
         base = _import_from_base(node, self._mod)
@@ -332,33 +324,154 @@ class _BodyImportsResolver(ast.NodeTransformer):
                 self._register(
                     alias.asname or alias.name, base.split(".") + [alias.name]
                 )
-        return node
 
-    def _visit_nested_scope(self, node: ast.AST, own_names: Set[str]) -> Any:
-        # An import statement binds its names in the scope that contains it: they are seen in the scopes nested
-        # in that scope unless these bind the same name, and they are not seen outside.
+    def _nested_scope(self, node: Any) -> Any:
+        pass
+
+    visit_FunctionDef = _nested_scope
+    visit_AsyncFunctionDef = _nested_scope
+    visit_ClassDef = _nested_scope
+    visit_Lambda = _nested_scope
+
+    def accepted(self, gctx: EvalMainContext) -> Dict[str, List[str]]:
+        """
+        The names bound to an object of an accepted package.
+        """
+        res: Dict[str, List[str]] = {}
+        for (name, paths) in self.bindings.items():
+            auth = [
+                parts
+                for parts in paths
+                if gctx.is_authorized_path(CanonicalPathUtils.from_list(parts))
+            ]
+            if auth and len(paths) > 1:
+                raise DDSException(
+                    f"The name {name} is bound by several import statements of the same function to different"
+                    f" objects ({', '.join('.'.join(parts) for parts in paths)}), in accepted packages for some"
+                    f" of them: DDS cannot tell which one is used. Suggestion: import the objects under"
+                    f" different names.",
+                    DDSErrorCode.CONSTRUCT_NOT_SUPPORTED,
+                )
+            if auth:
+                res[name] = auth[0]
+        return res
+
+
+class _BodyImportsResolver(ast.NodeTransformer):
+    """
+    A name bound by an import statement in the body of a function (from pkg import conf,
+    from pkg.conf import fun, import pkg.conf as conf) is not a name of the module of the function. It is
+    replaced by the full path of what it denotes (pkg.conf, pkg.conf.fun), which is looked up from the root
+    like the modules that are imported by their own name (import pkg.conf).
+
+    As in Python, an import statement binds its names in the whole scope that contains it: they are seen in the
+    scopes nested in that scope unless these bind the same name, and they are not seen outside.
+    Only the imports from the accepted packages are resolved: the other ones do not take part in the analysis.
+    """
+
+    def __init__(self, mod: ModuleType, gctx: EvalMainContext):
+        self._mod = mod
+        self._gctx = gctx
+        self._aliases: Dict[str, List[str]] = {}
+
+    def visit_in_scope(
+        self,
+        own_names: Set[str],
+        scope_body: Sequence[ast.AST],
+        nodes: Sequence[Optional[ast.AST]],
+    ) -> List[Any]:
+        """
+        Visits the nodes inside a scope that binds the given names and contains the given statements.
+        """
+        imports = _ScopeImportsVisitor(self._mod)
+        for n in scope_body:
+            imports.visit(n)
         saved = self._aliases
-        self._aliases = dict((k, v) for (k, v) in saved.items() if k not in own_names)
+        self._aliases = dict(
+            (k, v)
+            for (k, v) in saved.items()
+            if k not in own_names and k not in imports.bindings
+        )
+        self._aliases.update(imports.accepted(self._gctx))
         try:
-            return self.generic_visit(node)
+            return [None if n is None else self.visit(n) for n in nodes]
         finally:
             self._aliases = saved
 
+    def _visit_all(self, nodes: Sequence[Optional[ast.AST]]) -> List[Any]:
+        return [None if n is None else self.visit(n) for n in nodes]
+
+    def _visit_function_header(self, args: ast.arguments) -> None:
+        # Default values and annotations are evaluated in the enclosing scope.
+        args.defaults = self._visit_all(args.defaults)
+        args.kw_defaults = self._visit_all(args.kw_defaults)
+        all_args = getattr(args, "posonlyargs", []) + args.args + args.kwonlyargs
+        all_args += [a for a in (args.vararg, args.kwarg) if a is not None]
+        for a in all_args:
+            if a.annotation is not None:
+                a.annotation = self.visit(a.annotation)
+
     def visit_FunctionDef(self, node: ast.FunctionDef) -> Any:
-        return self._visit_nested_scope(
-            node, set(_arg_names(node.args)) | _bound_names(node.body)[0]
+        node.decorator_list = self._visit_all(node.decorator_list)
+        self._visit_function_header(node.args)
+        if node.returns is not None:
+            node.returns = self.visit(node.returns)
+        (bound, declared_global) = _bound_names(node.body)
+        node.body = self.visit_in_scope(
+            set(_arg_names(node.args)) | bound | declared_global, node.body, node.body
         )
+        return node
 
     def visit_Lambda(self, node: ast.Lambda) -> Any:
-        return self._visit_nested_scope(node, set(_arg_names(node.args)))
+        self._visit_function_header(node.args)
+        (bound, _) = _bound_names([node.body])
+        [node.body] = self.visit_in_scope(
+            set(_arg_names(node.args)) | bound, [], [node.body]
+        )
+        return node
 
     def visit_ClassDef(self, node: ast.ClassDef) -> Any:
-        return self._visit_nested_scope(node, _bound_names(node.body)[0])
+        node.decorator_list = self._visit_all(node.decorator_list)
+        node.bases = self._visit_all(node.bases)
+        for k in node.keywords:
+            k.value = self.visit(k.value)
+        # The names bound in the body of a class are seen by the statements of the body, not by its methods.
+        statements = [
+            n
+            for n in node.body
+            if not isinstance(n, (ast.FunctionDef, ast.AsyncFunctionDef))
+        ]
+        (bound, _) = _bound_names(statements)
+        new_body: List[Any] = []
+        for n in node.body:
+            if isinstance(n, (ast.FunctionDef, ast.AsyncFunctionDef)):
+                new_body.append(self.visit(n))
+            else:
+                new_body += self.visit_in_scope(bound, statements, [n])
+        node.body = new_body
+        return node
 
     def _visit_comprehension(self, node: Any) -> Any:
-        return self._visit_nested_scope(
-            node, _bound_names([g.target for g in node.generators])[0]
-        )
+        gens = node.generators
+        # The first iterable is evaluated in the enclosing scope.
+        gens[0].iter = self.visit(gens[0].iter)
+        (bound, _) = _bound_names([g.target for g in gens])
+        inner: List[ast.AST] = list(gens[0].ifs)
+        for g in gens[1:]:
+            inner += [g.iter] + list(g.ifs)
+        inner += [node.key, node.value] if isinstance(node, ast.DictComp) else [node.elt]
+        res = self.visit_in_scope(bound, [], inner)
+        gens[0].ifs = res[: len(gens[0].ifs)]
+        pos = len(gens[0].ifs)
+        for g in gens[1:]:
+            g.iter = res[pos]
+            g.ifs = res[pos + 1 : pos + 1 + len(g.ifs)]
+            pos += 1 + len(g.ifs)
+        if isinstance(node, ast.DictComp):
+            (node.key, node.value) = (res[pos], res[pos + 1])
+        else:
+            node.elt = res[pos]
+        return node
 
     visit_ListComp = _visit_comprehension
     visit_SetComp = _visit_comprehension
@@ -386,8 +499,9 @@ def _resolve_body_imports(
     if isinstance(node, ast.FunctionDef) and not getattr(
         node, "_dds_imports_resolved", False
     ):
-        resolver = _BodyImportsResolver(mod, gctx)
-        node.body = [resolver.visit(n) for n in node.body]
+        node.body = _BodyImportsResolver(mod, gctx).visit_in_scope(
+            _bound_names(node.body)[1], node.body, node.body
+        )
         setattr(node, "_dds_imports_resolved", True)
 
 
